@@ -8,6 +8,7 @@ import EaselModel.Random.SamplersLen
 import EaselModel.Random.Replay
 import EaselModel.Random.Dump
 import EaselModel.Generated.RandTables
+import EaselModel.Random.Consts
 /-! # C09 — property theorems (statements + glue only; lemmas live in Random/*.lean)
 
 Every theorem quantifies over all seeds / all stream positions / all states; none is bounded. -/
@@ -263,25 +264,37 @@ theorem samplers_replay {F : Type} [SOps F] (r : Rng) (seed : UInt32) (fu fuel :
   ⟨gaussian_rel b fu fuel T mean sd _ _ h, gamma_rel b fu fuel a _ _ h, dirichlet_rel b fu fuel alpha _ _ h,
    uniPos_rel b fu _ _ h, rndMem_rel b fu n [] _ _ h, floatString_rel b fu _ _ h⟩
 
-/-- the integer literals of `mersenne_twister`, `mersenne_seed_table`, `mersenne_fill_table`, `knuth`, `esl_rand64`,
-    `mt64_seed_table`, `mt64_fill_table` in the working tree (regenerated on every run) are the published MT19937
-    (n=624, m=397, a=0x9908B0DF, u=11, s=7, b=0x9D2C5680, t=15, c=0xEFC60000, l=18; seeding multiplier 69069) and
-    MT19937-64 (n=312, m=156, a=0xB5026F5AA96619E9, u=29, d=0x5555555555555555, s=17, b=0x71D67FFFEDA60000, t=37,
-    c=0xFFF7EEE000000000, l=43; seeding multiplier 6364136223846793005, shift 62) constants, in the order the hand model
-    (`twist32/temper32/P32`, `twist64/temper64/P64`) uses them -/
+/-- the generator constants of the working tree — PROBED from the compiled `mersenne_twister`, `mersenne_fill_table`,
+    `mersenne_seed_table`, `knuth`, `esl_rand64`, `mt64_fill_table`, `mt64_seed_table` on every run (`translate/rand_tables.py`:
+    independent of how the source spells them; the prober also validates that the C refill / seeding / tempering ARE the MT
+    recurrence with these values) — are the published MT19937 (n=624, m=397, a=0x9908B0DF, upper/lower masks, seeding
+    multiplier 69069), LCG (a=69069, c=1) and MT19937-64 (n=312, m=156, a=0xB5026F5AA96619E9, masks, seeding multiplier
+    6364136223846793005, shift 62) constants -/
 theorem mt_constants_published :
-    EaselModel.Generated.RandTables.mt32TemperLits = [624, 11, 7, 0x9D2C5680, 15, 0xEFC60000, 18] ∧
-    EaselModel.Generated.RandTables.mt32SeedLits = [0, 1, 624, 69069, 1] ∧
-    EaselModel.Generated.RandTables.lcgLits = [69069, 1] ∧
-    EaselModel.Generated.RandTables.mt32FillLits =
-      [2, 0, 0x9908B0DF, 0, 227, 0x80000000, 1, 0x7FFFFFFF, 397, 1, 1, 623, 0x80000000, 1, 0x7FFFFFFF, 227, 1, 1,
-       623, 0x80000000, 0, 0x7FFFFFFF, 623, 396, 1, 1, 0] ∧
-    EaselModel.Generated.RandTables.mt64TemperLits =
-      [312, 29, 0x5555555555555555, 17, 0x71D67FFFEDA60000, 37, 0xFFF7EEE000000000, 43] ∧
-    EaselModel.Generated.RandTables.mt64SeedLits = [0, 1, 312, 6364136223846793005, 1, 1, 62] ∧
-    EaselModel.Generated.RandTables.mt64FillLits =
-      [2, 0, 0xB5026F5AA96619E9, 0, 156, 0xFFFFFFFF80000000, 1, 0x7FFFFFFF, 156, 1, 1, 311, 0xFFFFFFFF80000000, 1,
-       0x7FFFFFFF, 156, 1, 1, 311, 0xFFFFFFFF80000000, 0, 0x7FFFFFFF, 311, 155, 1, 1, 0] := by decide
+    EaselModel.Generated.RandTables.mt32Consts = [624, 397, 0x9908B0DF, 0x80000000, 0x7FFFFFFF, 69069] ∧
+    EaselModel.Generated.RandTables.lcgConsts = [69069, 1] ∧
+    EaselModel.Generated.RandTables.mt64Consts =
+      [312, 156, 0xB5026F5AA96619E9, 0xFFFFFFFF80000000, 0x7FFFFFFF, 6364136223846793005, 62] := by decide
+
+/-- and the hand model is written with exactly the regenerated values: `P32/twist32/temper32`, `P64/twist64/temper64` and the
+    LCG step of `Rng.next` are the MT / LCG with the probed `N, M, A`, masks, seeding constants, and the probed tempering
+    (images of all 32 resp. 64 basis words) — no generator constant is taken on trust from the model source -/
+theorem model_constants_regenerated :
+    (P32.N = c32 0 ∧ P32.M = c32 1 ∧
+     (∀ a b c, twist32 a b c = twistOf32 (UInt32.ofNat (c32 2)) (UInt32.ofNat (c32 3)) (UInt32.ofNat (c32 4)) a b c) ∧
+     (∀ z x, P32.seedf z x = UInt32.ofNat (c32 5) * x) ∧
+     (List.range 32).map (fun i => (temper32 ((1 : UInt32) <<< UInt32.ofNat i)).toNat) = EaselModel.Generated.RandTables.mt32TemperBasis) ∧
+    (P64.N = c64 0 ∧ P64.M = c64 1 ∧
+     (∀ a b c, twist64 a b c = twistOf64 (UInt64.ofNat (c64 2)) (UInt64.ofNat (c64 3)) (UInt64.ofNat (c64 4)) a b c) ∧
+     (∀ z x, P64.seedf z x = UInt64.ofNat (c64 5) * (x ^^^ (x >>> UInt64.ofNat (c64 6))) + UInt64.ofNat (z + 1)) ∧
+     (List.range 64).map (fun i => (temper64 ((1 : UInt64) <<< UInt64.ofNat i)).toNat) = EaselModel.Generated.RandTables.mt64TemperBasis) ∧
+    (∀ r : Rng, r.kind = .fast → (r.next).1 = r.x * UInt32.ofNat (EaselModel.Generated.RandTables.lcgConsts.getD 0 0)
+                                               + UInt32.ofNat (EaselModel.Generated.RandTables.lcgConsts.getD 1 0)) :=
+  ⟨⟨model_uses_generated32.1, model_uses_generated32.2.1, model_uses_generated32.2.2.1, model_uses_generated32.2.2.2.1,
+    model_uses_generated32.2.2.2.2.1⟩,
+   ⟨model_uses_generated64.1, model_uses_generated64.2.1, model_uses_generated64.2.2.1, model_uses_generated64.2.2.2.1,
+    model_uses_generated64.2.2.2.2.1⟩,
+   fun r h => (model_uses_generated_lcg r h).1⟩
 
 /-! ## Seed 0 through Create / CreateFast / CreateTimeseeded / Init (both generators), `esl_rand64_Init`, and the Dump functions -/
 
